@@ -37,6 +37,8 @@ pub struct GenOpts {
     pub big_graphs: f64,
     /// Probability that the set lists one solution twice (a set is validated as a list: duplicates are accepted).
     pub p_dup_solution: f64,
+    /// Probability of a set with 17..=40 solutions.
+    pub p_mid_sets: f64,
 }
 
 impl Default for GenOpts {
@@ -54,6 +56,7 @@ impl Default for GenOpts {
             hostile_reads: 0.0,
             big_graphs: 0.0,
             p_dup_solution: 0.0,
+            p_mid_sets: 0.004,
         }
     }
 }
@@ -132,6 +135,14 @@ fn reader(o: &mut Vec<Op>, r: &mut Rng, abs: Word, post: bool, contracts: &[Cont
         (n, n * 2 + n * 4 + 1)
     };
     let ext = r.chance(0.4);
+    // sometimes the read sits behind control flow: a Halt that is jumped over, or a conditional halt / panic that
+    // is not taken (whether a program reads post-state is a property of the program, not of its first ops)
+    match r.below(12) {
+        0 => o.extend([PUSH(2), PUSH(1), JMPIF, HLT]),
+        1 => o.extend([PUSH(0), HLTIF]),
+        2 => o.extend([PUSH(0), PNCIF, PUSH(3), PUSH(1), JMPIF, HLT, HLT]),
+        _ => {}
+    }
     // stack: [.., (contract words), key.., klen, n, addr]
     if ext {
         let c = r.pick(contracts).clone();
@@ -524,7 +535,14 @@ pub fn gen_scenario(r: &mut Rng, o: &GenOpts) -> Scenario {
         }
     }
     // solutions
-    let ns = if r.chance(0.004) { 100 } else { 1 + r.below(o.max_solutions) };
+    // mostly small sets; sometimes mid-size (17..=40: several rayon jobs / batches of solutions) or the maximum
+    let ns = if r.chance(0.004) {
+        100
+    } else if r.chance(o.p_mid_sets) {
+        17 + r.below(24)
+    } else {
+        1 + r.below(o.max_solutions)
+    };
     let mut solutions = vec![];
     let mut sol_pred = vec![];
     let mut taken: std::collections::BTreeMap<(ContentAddress, Vec<Word>), Vec<Word>> = Default::default();
